@@ -24,6 +24,13 @@ def replay(rec) -> dict:
     dec = getattr(mod, "decode_args", None)
     if dec is not None:
         args = dec(rec["func"], args)
+    import inspect
+
+    declared = set(inspect.signature(fn).parameters)
+    inst.FRESH.clear()
+    inst.FRESH_REPLAY.clear()
+    inst.FRESH_REPLAY.update({k: v for k, v in args.items() if k not in declared})
+    args = {k: v for k, v in args.items() if k in declared}
     try:
         ret = fn(**args)
     except inst.PreconditionNotMet:
